@@ -19,7 +19,7 @@ import (
 func init() {
 	register(respPart)
 	registerReplay("resp-program", respReplay)
-	rules = append(rules, "[resp] every handler program of the C09 alphabet up to length 3 (quick) / 4 (thorough) x 4 request versions, executed through Parser.Parse -> handler -> flushResponse -> release under 4 allocator variants, plus one execution per (variant, k) with the k-th connection write failing, k = 1..number of writes of the failure-free run;")
+	rules = append(rules, "[resp] every handler program of the C09 alphabet up to length 3 (quick, quick alphabet) / 4 (thorough, thorough alphabet) x 4 request versions, executed through Parser.Parse -> handler -> flushResponse -> release under 4 allocator variants, plus one execution per (variant, k) with the k-th connection write failing, k = 1..number of writes of the failure-free run;")
 	assumptions = append(assumptions, "[resp] the handler ignores the errors its operations return and carries on (worst case for the writer's error paths)")
 }
 
@@ -74,7 +74,7 @@ func respPart(tier string, sh *vkit.Shard, p *vkit.Part) {
 	cfg.Depth = 3
 	limit := 60 * time.Second
 	if tier == "thorough" {
-		cfg = respgen.QuickConfig()
+		cfg = respgen.ThoroughConfig()
 		cfg.Depth = 4
 		limit = 14 * time.Minute
 	}
